@@ -1,0 +1,52 @@
+//! Verification hooks for property C37 (Compressor forwarding addresses): public re-exports and
+//! thin wrappers of the crate-private Compressor forwarding machinery.  No behaviour of their own.
+
+use crate::policy::compressor::forwarding::{
+    Block, CompressorRegion, MARK_SPEC, OFFSET_VECTOR_SPEC,
+};
+use crate::policy::compressor::CompressorSpace;
+use crate::util::linear_scan::Region;
+use crate::util::metadata::side_metadata::SideMetadataSpec;
+use crate::util::{Address, ObjectReference};
+use crate::vm::VMBinding;
+
+pub use crate::policy::compressor::forwarding::ForwardingMetadata;
+
+/// Size of a [`CompressorRegion`] in bytes.
+pub const REGION_BYTES: usize = CompressorRegion::BYTES;
+/// Size of an offset-vector block in bytes.
+pub const BLOCK_BYTES: usize = Block::BYTES;
+
+/// The mark-bit spec of the Compressor (first and last word of each live object).
+pub fn mark_spec() -> SideMetadataSpec {
+    MARK_SPEC
+}
+
+/// The offset-vector spec of the Compressor (one word per block).
+pub fn offset_vector_spec() -> SideMetadataSpec {
+    OFFSET_VECTOR_SPEC
+}
+
+/// `CompressorSpace::prepare` for one region: clear the mark bits of `[start, start + bytes)`.
+pub fn clear_marks(start: Address, bytes: usize) {
+    MARK_SPEC.bzero_metadata(start, bytes);
+}
+
+/// `CompressorSpace::<VM>::test_and_mark`: set the mark bit of the first word of `object`.
+pub fn test_and_mark<VM: VMBinding>(object: ObjectReference) -> bool {
+    CompressorSpace::<VM>::test_and_mark(object)
+}
+
+/// `CompressorSpace::<VM>::is_marked`.
+pub fn is_marked<VM: VMBinding>(object: ObjectReference) -> bool {
+    CompressorSpace::<VM>::is_marked(object)
+}
+
+/// `ForwardingMetadata::calculate_offset_vector` for the region starting at `region_start`.
+pub fn calculate_offset_vector<VM: VMBinding>(
+    forwarding: &ForwardingMetadata<VM>,
+    region_start: Address,
+    cursor: Address,
+) {
+    forwarding.calculate_offset_vector(CompressorRegion::from_aligned_address(region_start), cursor);
+}
